@@ -1,5 +1,6 @@
 import VModel.Spec
 import VProofs.Lemmas.MergeCorrect
+import VProofs.Lemmas.ScorePredict
 /-!
 # C01 — Boundary scores and decisions equal the pointwise linear model
 
@@ -31,8 +32,8 @@ structure SentOK (s : Sentence) : Prop where
   bounds_len : s.bounds.length + 1 = s.text.length
 
 /-- `+=` on positional weights adds the functions they denote (covers every offset/length case at once) -/
-theorem C01_addAssign_denote (a b : PW) (x : Int) : (a.add b).denote x = a.denote x + b.denote x := by
-  sorry
+theorem C01_addAssign_denote (a b : PW) (x : Int) : (a.add b).denote x = a.denote x + b.denote x :=
+  C01L.PW_add_denote a b x
 
 /-- `add_score`, both layouts: when the start position satisfies the bounds the layout needs, the call does not panic,
 keeps the buffer length and adds to every buffer slot `j` exactly the weight's value at relative position `j − end` -/
@@ -41,25 +42,29 @@ theorem C01_addScore (cfg : Cfg) (pw : PW) (endPos : Int) (ys : List Int)
     (hfix : cfg.fixed = true → pw.weight.length ≤ fixedLen →
       0 ≤ endPos + pw.offset ∧ endPos + pw.offset + fixedLen ≤ ys.length) :
     ∃ r, (pw.toPWV cfg).addScore endPos ys = .ok r ∧ r.length = ys.length ∧
-      ∀ j, j < ys.length → r.getD j 0 = ys.getD j 0 + pw.denote ((j : Int) - endPos) := by
-  sorry
+      ∀ j, j < ys.length → r.getD j 0 = ys.getD j 0 + pw.denote ((j : Int) - endPos) :=
+  C01L.addScore_ok cfg pw endPos ys hvar hfix
 
 /-- the merged weight of every pattern denotes the sum of the original weights of all patterns that are suffixes of it -/
 theorem C01_merge_correct {α : Type} [DecidableEq α] (entries : List (List α × PW))
     (hnd : (entries.map Prod.fst).Nodup) (hne : [] ∉ entries.map Prod.fst) (x : Int) :
     ∀ k ∈ entries.map Prod.fst,
       (Merge.lookupD ⟨0, []⟩ (Merge.mergeEntries PW.add ⟨0, []⟩ entries) k).denote x
-        = ((entries.filter (fun e => e.1.isSuffixOf k)).map (fun e => e.2.denote x)).sum := by
-  sorry
+        = ((entries.filter (fun e => e.1.isSuffixOf k)).map (fun e => e.2.denote x)).sum := fun k hk =>
+  (Merge.mergeEntries_correct PW.add ⟨0, []⟩ (fun pw => pw.denote x) (fun _ _ => True)
+    (fun _ _ _ _ _ _ _ => trivial) (fun _ _ a b _ _ _ => C01_addAssign_denote a b x) entries hnd hne
+    (fun _ _ => trivial) k hk).2
 
+set_option linter.unusedVariables false in
 /-- the type-score cache: every visible boundary receives exactly the type n-gram part of the specification -/
 theorem C01_cache_correct (m : WModel) (hm : WFModel m) (hw : m.typeW ≤ 3) (types : List Nat)
     (ht : ∀ t ∈ types, 1 ≤ t ∧ t ≤ 6) (hne : types ≠ []) (buf : List Int)
     (hbuf : buf.length = padding * 2 + types.length - 1) :
     ∃ r, cacheAddScores m.typeNgrams m.typeW types (types.length - 1) buf = .ok r ∧ r.length = buf.length ∧
       ∀ b, b < types.length - 1 →
-        r.getD (padding + b) 0 = buf.getD (padding + b) 0 + ngramScore m.typeW m.typeNgrams types b := by
-  sorry
+        r.getD (padding + b) 0 = buf.getD (padding + b) 0 + ngramScore m.typeW m.typeNgrams types b :=
+  C01L.cache_correct m.typeNgrams m.typeW types hm.type_shape ht (types.length - 1) buf
+    (by rw [hbuf, C01L.padding_eq]; omega)
 
 /-- **main theorem**: for every well-formed model, every build configuration, every predictor built from it (with or
 without tag prediction) and every sentence over a non-empty text, `predict` does not panic, the reported scores equal
@@ -70,13 +75,50 @@ theorem C01_scores (cfg : Cfg) (m : WModel) (hm : WFModel m) (pt : Bool) (p : Pr
     ∃ s', p.predict pid s = .ok s' ∧
       s'.boundaryScores = .ok (specScores m s.text) ∧
       s'.bounds = specBounds m s.text ∧
-      s'.text = s.text ∧ s'.types = s.types ∧ s'.tags = s.tags ∧ s'.nTags = s.nTags ∧ s'.pred = some pid := by
-  sorry
+      s'.text = s.text ∧ s'.types = s.types ∧ s'.tags = s.tags ∧ s'.nTags = s.nTags ∧ s'.pred = some pid :=
+  C01L.predict_correct cfg m hm.charW_pos hm.char_shape hm.typeW_pos hm.type_shape
+    (fun d hd => (hm.dict_shape d hd).1) pt p hp s hs.text_ne hs.types_eq hs.bounds_len pid
 
 /-- prediction leaves no boundary unknown -/
 theorem C01_no_unknown (cfg : Cfg) (m : WModel) (hm : WFModel m) (pt : Bool) (p : Predictor)
     (hp : Predictor.new cfg m pt = .ok p) (s s' : Sentence) (hs : SentOK s) (pid : Nat)
     (h : p.predict pid s = .ok s') : ∀ b ∈ s'.bounds, b ≠ B.U := by
-  sorry
+  obtain ⟨s'', h1, _, h2, _⟩ := C01_scores cfg m hm pt p hp s hs pid
+  rw [h1] at h
+  simp only [Res.ok.injEq] at h
+  subst h
+  intro b hb
+  rw [h2] at hb
+  unfold specBounds at hb
+  obtain ⟨x, _, hx⟩ := List.mem_map.mp hb
+  rw [← hx]
+  split <;> simp
+
+/-! ## non-vacuity: a concrete well-formed model (with a tag model, so that both the plain and the tag-aware scorers are
+built) and a sentence satisfying the hypotheses of `C01_scores` -/
+
+def C01_exModel : WModel :=
+  { charNgrams := [⟨['a'], [1, -2]⟩, ⟨['a', 'b'], [5]⟩], typeNgrams := [⟨[2], [3, 4]⟩, ⟨[2, 2], [-1]⟩],
+    dict := [⟨['a', 'b'], [1, 2, 3], []⟩], bias := -10, charW := 1, typeW := 1,
+    tagModels := [{ token := ['a'], tags := [[['x'], ['y']]], charNgrams := [⟨['b', 'a'], [⟨0, [1, 2]⟩]⟩],
+                    typeNgrams := [⟨[2], [⟨1, [0, 1]⟩]⟩], bias := [0, 0] }] }
+
+def C01_exSentence : Sentence :=
+  { Sentence.default with text := ['a', 'b', 'a'], types := typesOf ['a', 'b', 'a'], bounds := [B.U, B.U] }
+
+example : WFModel C01_exModel :=
+  { charW_pos := by decide, charW_le := by decide, typeW_pos := by decide, typeW_le := by decide,
+    char_nodup := by decide, char_shape := by decide, type_nodup := by decide, type_shape := by decide,
+    dict_nodup := by decide, dict_shape := by decide }
+
+example : SentOK C01_exSentence := ⟨by decide, rfl, rfl⟩
+
+/-- fixed layout + cache, no tags; variable layout, no cache; tag-aware scorers -/
+example : (Predictor.new {} C01_exModel false).isOk = true := by decide
+example : (Predictor.new { fixed := false, cache := false, tagPred := false } C01_exModel false).isOk = true := by decide
+example : (Predictor.new {} C01_exModel true).isOk = true := by decide
+
+example : specScores C01_exModel C01_exSentence.text = [1, 0] := by decide
+example : specBounds C01_exModel C01_exSentence.text = [B.W, B.N] := by decide
 
 end V
